@@ -98,54 +98,72 @@ def compare_loaded_with_file(D, frames, M, prefix, opts=None):
             w = c3dref.join(H['event_flags'][2 * i:2 * i + 2]); o('hdr.eventsDisplay', w, h['eventsDisplay'][i], 'event display word %d' % i)
         for i in range(18):
             O.extend(eq_list(prefix + '/hdr.eventsLabel', until_nul(H['event_labels'][i]), h['eventsLabel'][i], 'event label %d' % i))
-    # ---- groups and parameters by name
-    got_groups = {}
-    for g in M['groups']:
-        n = cstr(g['name'])
-        if n is None: O.append(Obl(prefix + '/grp.name', True, 'loaded group name is symbolic')); continue
-        if n == '': continue      # id placeholders are not named groups
-        if n in got_groups: O.append(Obl(prefix + '/grp.duplicate', True, 'group %s appears twice' % n))
-        got_groups[n] = g
-    exp_names = set()
-    for gid, g in sorted(D['groups'].items()):
-        n = cstr(g['name'])
-        exp_names.add(n)
-        gg = got_groups.get(n)
-        if gg is None: O.append(Obl(prefix + '/grp.missing', True, 'group %s (id %d) of the file is not in the loaded object' % (n, gid))); continue
+    # ---- groups and parameters: matched by name (C02) or by position (C03: the writer's order is the object's order)
+    pairs = []       # (file group dict, object group dict, tag)
+    if opts.get('match') == 'position':
+        fg = [D['groups'][x[1]] for x in D['order'] if x[0] == 'g']
+        og = [g for g in M['groups']]
+        if len(fg) != len(og): O.append(Obl(prefix + '/par.nbGroups', True, '%d group records in the file, %d groups in the object' % (len(fg), len(og))))
+        for k, (g, gg) in enumerate(zip(fg, og)):
+            O.extend(eq_list(prefix + '/grp.name', gg['name'], g['name'], 'name of group %d' % k, up=True))
+            pairs.append((g, gg, 'group#%d' % k, list(zip(g['params'], gg['params'])) if len(g['params']) == len(gg['params']) else None))
+    else:
+        got_groups = {}
+        for g in M['groups']:
+            n = cstr(g['name'])
+            if n is None: O.append(Obl(prefix + '/grp.name', True, 'loaded group name is symbolic')); continue
+            if n == '': continue      # id placeholders are not named groups
+            if n in got_groups: O.append(Obl(prefix + '/grp.duplicate', True, 'group %s appears twice' % n))
+            got_groups[n] = g
+        exp_names = set()
+        for gid, g in sorted(D['groups'].items()):
+            n = cstr(g['name'])
+            exp_names.add(n)
+            gg = got_groups.get(n)
+            if gg is None: O.append(Obl(prefix + '/grp.missing', True, 'group %s (id %d) of the file is not in the loaded object' % (n, gid))); continue
+            gp = {}
+            for p in gg['params']:
+                pn = cstr(p['name'])
+                if pn in gp: O.append(Obl(prefix + '/prm.duplicate', True, 'parameter %s:%s appears twice' % (n, pn)))
+                gp[pn] = p
+            pp = []
+            for p in g['params']:
+                pn = cstr(p['name']); q = gp.get(pn)
+                if q is None: O.append(Obl(prefix + '/prm.missing', True, 'parameter %s:%s of the file is not in the loaded object' % (n, pn))); continue
+                pp.append((p, q))
+            pairs.append((g, gg, n, pp))
+        for n in got_groups:
+            if n not in exp_names: O.append(Obl(prefix + '/grp.extra', True, 'loaded object has a group %s the file does not contain' % n))
+    for g, gg, n, pp in pairs:
         O.extend(eq_list(prefix + '/grp.desc', g['desc'], gg['desc'], 'description of group ' + n))
         o('grp.locked', 1 if g['locked'] else 0, gg['locked'], 'lock flag of group ' + n)
-        gp = {}
-        for p in gg['params']:
-            pn = cstr(p['name'])
-            if pn in gp: O.append(Obl(prefix + '/prm.duplicate', True, 'parameter %s:%s appears twice' % (n, pn)))
-            gp[pn] = p
         o('grp.nbParameters', len(g['params']), len(gg['params']), 'parameter count of group ' + n)
-        for p in g['params']:
-            pn = cstr(p['name']); q = gp.get(pn); tag = '%s:%s' % (n, pn)
-            if q is None: O.append(Obl(prefix + '/prm.missing', True, 'parameter %s of the file is not in the loaded object' % tag)); continue
+        for k, (p, q) in enumerate(pp or []):
+            pn = cstr(p['name']) or ('#%d' % k); tag = '%s:%s' % (n, pn)
+            if opts.get('match') == 'position':
+                O.extend(eq_list(prefix + '/prm.name', q['name'], p['name'], 'name of parameter %d of %s' % (k, n), up=True))
             O.extend(eq_list(prefix + '/prm.desc', p['desc'], q['desc'], 'description of ' + tag))
             o('prm.locked', 1 if p['locked'] else 0, q['locked'], 'lock flag of ' + tag)
             o('prm.type', p['type'], q['type'], 'type of ' + tag)
             dims = p['dims']
             if not dims and p['type'] != -1: dims = [1]       # a scalar is a 1-element array in the API
-            if len(dims) != len(q['dims']): O.append(Obl(prefix + '/prm.ndim', True, '%s: %d dimensions in the file, %d loaded' % (tag, len(dims), len(q['dims'])))); continue
-            for k, (a, b) in enumerate(zip(dims, q['dims'])): o('prm.dim', a, b, 'dimension %d of %s' % (k, tag))
+            if len(dims) != len(q['dims']): O.append(Obl(prefix + '/prm.ndim', True, '%s: %d dimensions in the file, %d in the object' % (tag, len(dims), len(q['dims'])))); continue
+            for k2, (a, b2) in enumerate(zip(dims, q['dims'])): o('prm.dim', a, b2, 'dimension %d of %s' % (k2, tag))
+            if q.get('is_data_start') and opts.get('skip_data_start_value'): continue
             if p['type'] == -1:
                 strs = c3dref.strings_of(p)
                 if len(p['dims']) == 1: strs = [list(p['values'])] if p['dims'][0] else []
-                if len(strs) != len(q['values']): O.append(Obl(prefix + '/prm.n', True, '%s: %d strings in the file, %d loaded' % (tag, len(strs), len(q['values'])))); continue
-                for k, (s, gs) in enumerate(zip(strs, q['values'])):
-                    ok = c3dref.trimmed_equal_obligation(until_nul(s) if opts.get('nul_terminates') else s, gs)
+                if len(strs) != len(q['values']): O.append(Obl(prefix + '/prm.n', True, '%s: %d strings in the file, %d in the object' % (tag, len(strs), len(q['values'])))); continue
+                for k2, (s_, gs) in enumerate(zip(strs, q['values'])):
+                    ok = c3dref.trimmed_equal_obligation(s_, gs)
                     bad = (not ok) if type(ok) is bool else z3.Not(ok)
-                    O.append(Obl(prefix + '/prm.s', bad, 'string %d of %s' % (k, tag)))
+                    O.append(Obl(prefix + '/prm.s', bad, 'string %d of %s' % (k2, tag)))
             else:
-                if len(p['values']) != len(q['values']): O.append(Obl(prefix + '/prm.n', True, '%s: %d values in the file, %d loaded' % (tag, len(p['values']), len(q['values'])))); continue
+                if len(p['values']) != len(q['values']): O.append(Obl(prefix + '/prm.n', True, '%s: %d values in the file, %d in the object' % (tag, len(p['values']), len(q['values'])))); continue
                 w = {1: 8, 2: 16, 4: 32}[p['type']]
-                for k, (a, b) in enumerate(zip(p['values'], q['values'])):
-                    if p['type'] == 4: o('prm.f', a, b, 'float value %d of %s' % (k, tag))
-                    else: o('prm.i' if p['type'] == 2 else 'prm.b', sx(a, w), b, 'value %d of %s' % (k, tag))
-    for n in got_groups:
-        if n not in exp_names: O.append(Obl(prefix + '/grp.extra', True, 'loaded object has a group %s the file does not contain' % n))
+                for k2, (a, b2) in enumerate(zip(p['values'], q['values'])):
+                    if p['type'] == 4: o('prm.f', a, b2, 'float value %d of %s' % (k2, tag))
+                    else: o('prm.i' if p['type'] == 2 else 'prm.b', sx(a, w), b2, 'value %d of %s' % (k2, tag))
     # ---- frames
     if frames is not None:
         o('dat.nbFrames', len(frames), M.get('nbFrames', 0))
